@@ -12,101 +12,93 @@ variable {N V T : Type} [DecidableEq N] [DecidableEq V]
 theorem convBy_eq_convO (W : World N V T) (t : Option T) (v : V) :
     convBy W t v = match Spec.convO W t v with | some x => .ok x | none => .error .perr := convBy_eq W t v
 
-/-- a sent value as the wrapper hands it to the raw generator: converted, or the conversion failed -/
-def convInp (W : World N V T) (g : GenTypes T) : Option V → Option (Option V)
-  | none => some none
-  | some x => (Spec.convO W g.sendT x).map some
+theorem pw_cons (f : Bool) (y : V) (outs' : List (Ev V)) (n : Nat) :
+    (if (f && (Ev.yielded y :: outs').length == n + 1 + 1 && (Ev.yielded y :: outs').all Spec.Ev.isYielded) = true
+      then (Ev.yielded y :: outs') ++ [Ev.raised] else Ev.yielded y :: outs')
+    = Ev.yielded y :: (if (f && outs'.length == n + 1 && outs'.all Spec.Ev.isYielded) = true
+      then outs' ++ [Ev.raised] else outs') := by
+  simp only [List.length_cons, List.all_cons, Spec.Ev.isYielded, Bool.true_and, Nat.add_right_cancel_iff, beq_iff_eq,
+    List.cons_append]
+  have : (outs'.length + 1 == n + 1 + 1) = (outs'.length == n + 1) := by
+    cases h : (outs'.length == n + 1) <;> simp_all
+  rw [this]
+  split <;> rfl
 
-theorem genTrace_eq_wrapTrace (W : World N V T) (g : GenTypes T) {σ : Type} (step : σ → Option V → Step σ V)
-    (rest : List (Option V)) : ∀ (st : σ) (inp : Option V),
-      Spec.genTrace W g step st inp rest
-        = match convInp W g inp with
-          | none => [.raised]
-          | some inp' => wrapTrace W g step st inp' rest := by
-  induction rest with
+theorem wrapTrace_eq_pointwise (W : World N V T) (g : GenTypes T) {σ : Type} (step : σ → Option V → Step σ V)
+    (sends : List (Option V)) : ∀ (st : σ) (inp : Option V),
+    wrapTrace W g step st inp sends = Spec.pointwise W g step st inp sends := by
+  induction sends with
   | nil =>
     intro st inp
-    unfold Spec.genTrace wrapTrace
-    cases inp with
-    | none =>
-      simp only [convInp]
-      cases step st none with
-      | ret r => cases r <;> simp [convBy_eq_convO] <;> (try split <;> simp_all)
-      | escaped => simp
-      | diverged => simp
-      | yield v st' => simp [convBy_eq_convO]; split <;> simp_all
-    | some x =>
-      simp only [convInp]
-      cases hx : Spec.convO W g.sendT x with
-      | none => simp
-      | some x' =>
-        simp only [Option.map_some]
-        cases step st (some x') with
-        | ret r => cases r <;> simp [convBy_eq_convO] <;> (try split <;> simp_all)
-        | escaped => simp
-        | diverged => simp
-        | yield v st' => simp [convBy_eq_convO]; split <;> simp_all
-  | cons nxt more ih =>
+    unfold wrapTrace Spec.pointwise rawTrace
+    simp only [Spec.convSends, Bool.false_and, Bool.false_eq_true, if_false]
+    cases step st inp with
+    | escaped => simp [Spec.convEvents]
+    | diverged => simp [Spec.convEvents]
+    | ret r =>
+      cases r with
+      | none => simp [Spec.convEvents]
+      | some rv =>
+        simp only [Spec.convEvents, convBy_eq]
+        cases Spec.convO W g.retT rv <;> simp
+    | yield v st' =>
+      simp only [Spec.convEvents, convBy_eq]
+      cases Spec.convO W g.yieldT v <;> simp [Spec.convEvents]
+  | cons s rest ih =>
     intro st inp
-    unfold Spec.genTrace wrapTrace
-    have tail : ∀ st', Spec.genTrace W g step st' nxt more =
-        (match nxt with
-          | none => wrapTrace W g step st' none more
-          | some x =>
-            match convBy W g.sendT x with
-            | .error _ => [Ev.raised]
-            | .ok x' => wrapTrace W g step st' (some x') more) := by
-      intro st'
-      rw [ih st' nxt]
-      cases nxt with
-      | none => simp [convInp]
-      | some x =>
-        simp only [convInp, convBy_eq_convO]
-        cases Spec.convO W g.sendT x <;> simp
-    cases inp with
-    | none =>
-      simp only [convInp]
-      cases step st none with
-      | ret r => cases r <;> simp [convBy_eq_convO] <;> (try split <;> simp_all)
-      | escaped => simp
-      | diverged => simp
-      | yield v st' =>
-        simp only [convBy_eq_convO, tail]
-        cases Spec.convO W g.yieldT v with
-        | none => simp
-        | some y =>
-          cases nxt with
-          | none => simp
-          | some x2 => simp; cases Spec.convO W g.sendT x2 <;> rfl
-    | some x =>
-      simp only [convInp]
-      cases hx : Spec.convO W g.sendT x with
-      | none => simp
-      | some x' =>
-        simp only [Option.map_some]
-        cases step st (some x') with
-        | ret r => cases r <;> simp [convBy_eq_convO] <;> (try split <;> simp_all)
-        | escaped => simp
-        | diverged => simp
-        | yield v st' =>
-          simp only [convBy_eq_convO, tail]
-          cases Spec.convO W g.yieldT v with
-          | none => simp
-          | some y =>
-          cases nxt with
-          | none => simp
-          | some x2 => simp; cases Spec.convO W g.sendT x2 <;> rfl
-
+    unfold wrapTrace
+    cases hstep : step st inp with
+    | escaped => unfold Spec.pointwise rawTrace; simp [hstep, Spec.convEvents, Spec.Ev.isYielded]
+    | diverged => unfold Spec.pointwise rawTrace; simp [hstep, Spec.convEvents, Spec.Ev.isYielded]
+    | ret r =>
+      unfold Spec.pointwise rawTrace
+      cases r with
+      | none => simp [hstep, Spec.convEvents, Spec.Ev.isYielded]
+      | some rv =>
+        simp only [hstep, Spec.convEvents, convBy_eq]
+        cases Spec.convO W g.retT rv <;> simp [Spec.Ev.isYielded]
+    | yield v st' =>
+      simp only [convBy_eq]
+      cases hy : Spec.convO W g.yieldT v with
+      | none =>
+        unfold Spec.pointwise rawTrace
+        simp [hstep, Spec.convEvents, hy, Spec.Ev.isYielded]
+      | some y =>
+        simp only
+        cases s with
+        | none =>
+          dsimp only
+          rw [ih st' none]
+          unfold Spec.pointwise
+          conv => rhs; unfold rawTrace
+          simp only [hstep, Spec.convSends, Spec.convEvents, hy, List.length_cons]
+          exact (pw_cons _ y _ _).symm
+        | some x =>
+          cases hx : Spec.convO W g.sendT x with
+          | none =>
+            dsimp only
+            simp only [hx]
+            unfold Spec.pointwise
+            conv => rhs; unfold rawTrace
+            simp [hstep, Spec.convSends, hx, Spec.convEvents, hy, Spec.Ev.isYielded]
+          | some x' =>
+            dsimp only
+            simp only [hx]
+            rw [ih st' (some x')]
+            unfold Spec.pointwise
+            conv => rhs; unfold rawTrace
+            simp only [hstep, Spec.convSends, hx, Spec.convEvents, hy, List.length_cons]
+            exact (pw_cons _ y _ _).symm
 /-- **C08 (generators).**  For every raw generator (any state space, any step function), every declared
-yield / send / return type, every transformer and every finite sequence of caller inputs (`next()` / `send(x)`
-after the initial `next()`), the events the caller of the wrapper observes are exactly those of the undecorated
-generator resumed with the converted sends, each yielded and returned value converted, cut at the first value that
-does not convert (there the caller gets a ParseError).  `wrapTrace` is the loop shared by `sync_from_generator` and
-(after fix C08-asend) `async_from_generator`; the lazy wrappers forward every resumption unchanged. -/
+yield / send / return type, every transformer and every finite input history (`next()` / `send(x)` after the initial
+`next()`): the events the caller of the wrapper observes are the generator clause of the specification, which is
+stated on lists and independently of the wrapper's loop — convert the sends one by one, run the UNDECORATED machine on
+the converted history, convert its yields / return one by one, cut at the first value that does not convert (there
+the caller gets a ParseError).  `wrapTrace` is the loop shared by `sync_from_generator` and `async_from_generator`. -/
 theorem C08_gen_trace (W : World N V T) (g : GenTypes T) {σ : Type} (step : σ → Option V → Step σ V)
     (st : σ) (sends : List (Option V)) :
-    wrapTrace W g step st none sends = Spec.genTrace W g step st none sends := by
-  rw [genTrace_eq_wrapTrace]; rfl
+    wrapTrace W g step st none sends = Spec.pointwise W g step st none sends :=
+  wrapTrace_eq_pointwise W g step sends st none
 
 /-! ### tail delegation: the body hands over to a generator it yields -/
 
@@ -123,6 +115,32 @@ theorem hop_reset_eq_flat {σ : Type} (raw : σ → Option V → RawStep σ V) (
     | ret r => rfl
     | delegate st' => simpa using ih st' none
 
+/-- fuel adequacy: once the hand-overs of one resumption have been followed within `fuel`, any larger fuel gives the
+same step — the theorems below hold for every fuel, and a finite chain of hand-overs is followed in full by any fuel
+that exceeds its length -/
+theorem hop_fuel_mono (reset : Bool) {σ : Type} (raw : σ → Option V → RawStep σ V) (fuel : Nat) :
+    ∀ (fuel' : Nat) (st : σ) (inp : Option V), fuel ≤ fuel' →
+    (match hop reset raw fuel st inp with | .diverged => False | _ => True) →
+    hop reset raw fuel' st inp = hop reset raw fuel st inp := by
+  induction fuel with
+  | zero => intro fuel' st inp _ h; simp [hop] at h
+  | succ n ih =>
+    intro fuel' st inp hle h
+    cases fuel' with
+    | zero => omega
+    | succ m =>
+      simp only [hop] at h ⊢
+      cases hr : raw st inp with
+      | yield v st' => rfl
+      | ret r => rfl
+      | delegate st' =>
+        simp only [hr] at h ⊢
+        cases hi : (if reset = true then none else inp) with
+        | some x => rfl
+        | none =>
+          simp only [hi] at h ⊢
+          exact ih m st' none (by omega) h
+
 /-- **C08 (generators with delegation).**  For every raw generator whose body may, at any point, hand over to another
 generator by yielding it (and that one to a further one, …), every declared type, transformer and input history, the
 wrapper's trace (`sync_from_generator` after fix C08-sync-delegate-sent, `async_from_generator`) is the trace of the
@@ -130,7 +148,7 @@ undecorated generators followed through their hand-overs, with sends, yields and
 sent before a hand-over; `fuel` bounds the number of consecutive hand-overs followed and is arbitrary. -/
 theorem C08_gen_trace_delegation (W : World N V T) (g : GenTypes T) {σ : Type} (raw : σ → Option V → RawStep σ V)
     (fuel : Nat) (st : σ) (sends : List (Option V)) :
-    wrapTrace W g (hop true raw fuel) st none sends = Spec.genTrace W g (Spec.flat raw fuel) st none sends := by
+    wrapTrace W g (hop true raw fuel) st none sends = Spec.pointwise W g (Spec.flat raw fuel) st none sends := by
   have : hop true raw fuel = Spec.flat raw fuel := by
     funext st inp; exact hop_reset_eq_flat raw fuel st inp
   rw [this, C08_gen_trace]
@@ -143,7 +161,7 @@ False) included — and `next()` only for None, so a lazily wrapped generator (s
 the specification as well: for every raw generator, declared types, transformer and input history. -/
 theorem C08_gen_trace_lazy (W : World N V T) (g : GenTypes T) {σ : Type} (step : σ → Option V → Step σ V)
     (st : σ) (sends : List (Option V)) :
-    lazyTrace W g step pyIsNone st none sends = Spec.genTrace W g step st none sends := by
+    lazyTrace W g step pyIsNone st none sends = Spec.pointwise W g step st none sends := by
   unfold lazyTrace
   have : sends.map (forwardInput pyIsNone) = sends := by
     induction sends with
@@ -154,7 +172,7 @@ theorem C08_gen_trace_lazy (W : World N V T) (g : GenTypes T) {σ : Type} (step 
 theorem C08_gen_trace_lazy_delegation (W : World N V T) (g : GenTypes T) {σ : Type}
     (raw : σ → Option V → RawStep σ V) (fuel : Nat) (st : σ) (sends : List (Option V)) :
     lazyTrace W g (hop true raw fuel) pyIsNone st none sends
-      = Spec.genTrace W g (Spec.flat raw fuel) st none sends := by
+      = Spec.pointwise W g (Spec.flat raw fuel) st none sends := by
   have : hop true raw fuel = Spec.flat raw fuel := by
     funext st inp; exact hop_reset_eq_flat raw fuel st inp
   rw [this, C08_gen_trace_lazy]
@@ -669,34 +687,24 @@ theorem pyBindCore_cons (s' : Sig N V T) (r : Param N V T) (a : V) (args' : List
         simp only [Option.map_some]
         split <;> simp
 
-/-- **class contexts.**  When the decorated object reserves its first parameter (instance method, `classmethod`,
-method of a class decorated as a whole), a call that passes `self`/`cls` first behaves as the function without that
-parameter: same ParseError / same binding, with the first argument handed through untouched. -/
-theorem C08_method_binding (W : World N V T) (hW : LowerIdem W) (c : Ctx) (full : Sig N V T) (r : Param N V T)
+/-- the reserved-first-parameter step, for whichever way the first argument was found (`first`, the remaining
+positional arguments `args1` and keywords `kw1`) -/
+theorem reserved_core (W : World N V T) (hW : LowerIdem W) (full : Sig N V T) (r : Param N V T)
     (ps : List (Param N V T)) (o : Opts) (self : V) (args : List V) (kw : List (N × V)) (out : Outcome N V)
-    (hres : firstReserve c full = true) (hpos : full.pos = r :: ps)
+    (hpos : full.pos = r :: ps)
     (wf : WF W { full with pos := ps })
     (hr : ∀ p ∈ Spec.kwParams { full with pos := ps }, p.name ≠ r.name)
     (hrk : r.name ∉ kw.map (·.1))
     (hk : KnownDefect.privateKw W { full with pos := ps } kw = false)
     (ha : KnownDefect.privateAnnotated W { full with pos := ps } = false)
     (hexp : Spec.expected W { full with pos := ps } args kw = some out) :
-    callDecl W c full o (self :: args) kw = consFirst self out := by
+    (match parseParams W { full with pos := ps } o args kw with
+      | .error _ => Outcome.perr
+      | .ok (args', kw') => rawCall full (self :: args', kw')) = consFirst self out := by
   obtain ⟨s', hs'⟩ : ∃ s' : Sig N V T, s' = { full with pos := ps } := ⟨_, rfl⟩
   have hfull : full = { s' with pos := r :: s'.pos } := by
     rw [hs']; cases full; simp at hpos; simp [hpos]
-  rw [← hs'] at wf hr hk ha hexp
-  have hcd : callDecl W c full o (self :: args) kw =
-      match parseParams W s' o args kw with
-      | .error _ => .perr
-      | .ok (args', kw') =>
-        match pyBindCore full (self :: args') kw' with
-        | none => .tyerr
-        | some b => .body b := by
-    unfold callDecl
-    rw [hres, hpos, hs']
-    rfl
-  rw [hcd]
+  rw [← hs'] at wf hr hk ha hexp ⊢
   unfold Spec.expected at hexp
   simp only at hexp
   cases hpb : Spec.pyBind s' args (Spec.normalise W s' kw) with
@@ -724,7 +732,7 @@ theorem C08_method_binding (W : World N V T) (hW : LowerIdem W) (c : Ctx) (full 
       | some ck =>
         simp only [hca, hck] at hcore hexp
         obtain ⟨args', kw', hpp, hfin, hext⟩ := hcore
-        simp only [hpp]
+        simp only [hpp, rawCall]
         -- `self`'s name is not a key of what parse_params hands over
         have hnt : s'.kwTarget r.name = false := by
           cases ht : s'.kwTarget r.name with
@@ -759,17 +767,199 @@ theorem C08_method_binding (W : World N V T) (hW : LowerIdem W) (c : Ctx) (full 
           subst hexp
           simp [consFirst]
 
+/-- what `get_params` + the raw call do once the first argument is known -/
+theorem callDecl_reserved (W : World N V T) (c : Ctx) (full : Sig N V T) (r : Param N V T) (ps : List (Param N V T))
+    (o : Opts) (args : List V) (kw : List (N × V))
+    (hres : firstReserve c full = true) (hpos : full.pos = r :: ps) :
+    callDecl W c full o args kw =
+      match (match args with
+        | a :: as => (a, as, kw)
+        | [] => match kw.lookup r.name with
+          | some v => (v, [], kw.filter (fun e => e.1 != r.name))
+          | none => (W.noneV, [], kw)) with
+      | (first, args1, kw1) =>
+        match parseParams W { full with pos := ps } o args1 kw1 with
+        | .error _ => .perr
+        | .ok (args', kw') =>
+          if c.fromClass && !W.isInst first then .perr
+          else rawCall full (first :: args', kw') := by
+  unfold callDecl getParams
+  rw [hres, hpos]
+  simp only
+  cases args with
+  | cons a as =>
+    simp only
+    cases parseParams W { full with pos := ps } o as kw with
+    | error e => rfl
+    | ok ak =>
+      obtain ⟨a', k'⟩ := ak
+      by_cases hchk : (c.fromClass && !W.isInst a) = true <;> simp [hchk]
+  | nil =>
+    simp only
+    cases kw.lookup r.name with
+    | some v =>
+      simp only
+      cases parseParams W { full with pos := ps } o [] (kw.filter (fun e => e.1 != r.name)) with
+      | error e => rfl
+      | ok ak =>
+        obtain ⟨a', k'⟩ := ak
+        by_cases hchk : (c.fromClass && !W.isInst v) = true <;> simp [hchk]
+    | none =>
+      simp only
+      cases parseParams W { full with pos := ps } o [] kw with
+      | error e => rfl
+      | ok ak =>
+        obtain ⟨a', k'⟩ := ak
+        by_cases hchk : (c.fromClass && !W.isInst W.noneV) = true <;> simp [hchk]
+
+/-- **class contexts.**  When the decorated object reserves its first parameter (instance method, `classmethod`,
+method of a class decorated as a whole), a call that passes `self`/`cls` first — an instance of the class, where the
+class was decorated as a whole — behaves as the function without that parameter: same ParseError / same binding,
+with the first argument handed through untouched. -/
+theorem C08_method_binding (W : World N V T) (hW : LowerIdem W) (c : Ctx) (full : Sig N V T) (r : Param N V T)
+    (ps : List (Param N V T)) (o : Opts) (self : V) (args : List V) (kw : List (N × V)) (out : Outcome N V)
+    (hres : firstReserve c full = true) (hpos : full.pos = r :: ps)
+    (hinst : c.fromClass = true → W.isInst self = true)
+    (wf : WF W { full with pos := ps })
+    (hr : ∀ p ∈ Spec.kwParams { full with pos := ps }, p.name ≠ r.name)
+    (hrk : r.name ∉ kw.map (·.1))
+    (hk : KnownDefect.privateKw W { full with pos := ps } kw = false)
+    (ha : KnownDefect.privateAnnotated W { full with pos := ps } = false)
+    (hexp : Spec.expected W { full with pos := ps } args kw = some out) :
+    callDecl W c full o (self :: args) kw = consFirst self out := by
+  rw [callDecl_reserved W c full r ps o (self :: args) kw hres hpos]
+  have hchk : (c.fromClass && !W.isInst self) = false := by
+    cases hc : c.fromClass with
+    | false => rfl
+    | true => simp [hinst hc]
+  simp only [hchk, Bool.false_eq_true, if_false]
+  exact reserved_core W hW full r ps o self args kw out hpos wf hr hrk hk ha hexp
+
+/-- **`self` by keyword** (fix C08-reserve-kw): with no positional argument, the reserved first parameter passed under
+its own name is bound the same way — the call behaves as the function without that parameter on the remaining
+keywords -/
+theorem C08_method_binding_self_kw (W : World N V T) (hW : LowerIdem W) (c : Ctx) (full : Sig N V T)
+    (r : Param N V T) (ps : List (Param N V T)) (o : Opts) (self : V) (kw : List (N × V)) (out : Outcome N V)
+    (hres : firstReserve c full = true) (hpos : full.pos = r :: ps)
+    (hself : kw.lookup r.name = some self)
+    (hinst : c.fromClass = true → W.isInst self = true)
+    (wf : WF W { full with pos := ps })
+    (hr : ∀ p ∈ Spec.kwParams { full with pos := ps }, p.name ≠ r.name)
+    (hk : KnownDefect.privateKw W { full with pos := ps } (kw.filter (fun e => e.1 != r.name)) = false)
+    (ha : KnownDefect.privateAnnotated W { full with pos := ps } = false)
+    (hexp : Spec.expected W { full with pos := ps } [] (kw.filter (fun e => e.1 != r.name)) = some out) :
+    callDecl W c full o [] kw = consFirst self out := by
+  rw [callDecl_reserved W c full r ps o [] kw hres hpos]
+  simp only [hself]
+  have hchk : (c.fromClass && !W.isInst self) = false := by
+    cases hc : c.fromClass with
+    | false => rfl
+    | true => simp [hinst hc]
+  simp only [hchk, Bool.false_eq_true, if_false]
+  refine reserved_core W hW full r ps o self [] _ out hpos wf hr ?_ hk ha hexp
+  intro hmem
+  obtain ⟨e, he, hn⟩ := List.mem_map.mp hmem
+  have := (List.mem_filter.mp he).2
+  simp [hn] at this
+
+/-- **a first argument that is not an instance** of the class decorated as a whole is refused with a ParseError
+(InvalidInstance / InvalidSubclass) before the function is called, whenever the other parameters parse -/
+theorem C08_method_invalid_instance (W : World N V T) (c : Ctx) (full : Sig N V T) (r : Param N V T)
+    (ps : List (Param N V T)) (o : Opts) (first : V) (args : List V) (kw : List (N × V))
+    (hres : firstReserve c full = true) (hpos : full.pos = r :: ps)
+    (hfc : c.fromClass = true) (hinst : W.isInst first = false) :
+    callDecl W c full o (first :: args) kw = .perr := by
+  rw [callDecl_reserved W c full r ps o (first :: args) kw hres hpos]
+  simp only [hfc, hinst, Bool.not_false, Bool.and_self, if_true]
+  cases parseParams W { full with pos := ps } o args kw with
+  | error e => rfl
+  | ok ak => rfl
+
+/-- **static contexts**: a `staticmethod` object reserves nothing — the call is the plain function's, to which
+`C08_binding_partial` applies as it stands -/
+theorem C08_static_binding (W : World N V T) (c : Ctx) (full : Sig N V T) (o : Opts) (args : List V)
+    (kw : List (N × V)) (hs : c.isStatic = true) (hc : c.isClassm = false) :
+    callDecl W c full o args kw = call W full o args kw := by
+  have : firstReserve c full = false := by unfold firstReserve; simp [hs, hc]
+  unfold callDecl getParams call rawCall
+  rw [this]
+  cases parseParams W full o args kw with
+  | error e => rfl
+  | ok ak => rfl
+
 /-! ### the result -/
 
-/-- **the returned value**: what the caller gets is the body's result converted to the return annotation, and a
-result that does not convert is a ParseError (func.py:703-712); without annotation the result is handed through -/
-theorem C08_result_conforms (W : World N V T) (ret : Option T) (r : V) :
+theorem parseResult_eq (W : World N V T) (ret : Option T) (r : V) :
     parseResult W ret r = match Spec.convO W ret r with
       | some v => .ok v
       | none => .perr := by
   unfold parseResult
   rw [convBy_eq]
   cases Spec.convO W ret r <;> rfl
+
+theorem finish_eq_result (W : World N V T) (ret : Option T) (body : Binding N V → V) (out : Outcome N V) :
+    finish W ret body out = Spec.result W ret body out := by
+  cases out with
+  | body b =>
+    simp only [finish, Spec.result, parseResult_eq]
+    cases Spec.convO W ret (body b) <;> rfl
+  | perr => rfl
+  | tyerr => rfl
+
+/-- **the returned value** (synchronous call).  For every body (any function of the binding it receives) and every
+return annotation: when Python binds the call, the caller of the decorated function gets the result of the body —
+run on Python's binding of the converted call — converted to the return annotation; a result that does not convert
+is a ParseError (the body has run); a parameter that does not convert is a ParseError without the body.  Same
+hypotheses as `C08_binding_partial`. -/
+theorem C08_call_result (W : World N V T) (hW : LowerIdem W) (s : Sig N V T) (wf : WF W s) (o : Opts)
+    (ret : Option T) (body : Binding N V → V) (args : List V) (kw : List (N × V)) (out : Outcome N V)
+    (hk : KnownDefect.privateKw W s kw = false) (ha : KnownDefect.privateAnnotated W s = false)
+    (hexp : Spec.expected W s args kw = some out) :
+    finish W ret body (call W s o args kw) = Spec.result W ret body out := by
+  rw [C08_binding_partial W hW s wf o args kw out hk ha hexp, finish_eq_result]
+
+/-- … for a method (reserved first parameter passed positionally) -/
+theorem C08_method_result (W : World N V T) (hW : LowerIdem W) (c : Ctx) (full : Sig N V T) (r : Param N V T)
+    (ps : List (Param N V T)) (o : Opts) (ret : Option T) (body : Binding N V → V) (self : V) (args : List V)
+    (kw : List (N × V)) (out : Outcome N V)
+    (hres : firstReserve c full = true) (hpos : full.pos = r :: ps)
+    (hinst : c.fromClass = true → W.isInst self = true)
+    (wf : WF W { full with pos := ps })
+    (hr : ∀ p ∈ Spec.kwParams { full with pos := ps }, p.name ≠ r.name)
+    (hrk : r.name ∉ kw.map (·.1))
+    (hk : KnownDefect.privateKw W { full with pos := ps } kw = false)
+    (ha : KnownDefect.privateAnnotated W { full with pos := ps } = false)
+    (hexp : Spec.expected W { full with pos := ps } args kw = some out) :
+    callR W c full o ret body (self :: args) kw = Spec.result W ret body (consFirst self out) := by
+  unfold callR
+  rw [C08_method_binding W hW c full r ps o self args kw out hres hpos hinst wf hr hrk hk ha hexp, finish_eq_result]
+
+/-- what awaiting the object returned by a decorated coroutine function gives (an exception at call time counts) -/
+def CoroRet.result : CoroRet N V → Ret N V
+  | .raisedAtCall => .perr
+  | .awaited r => r
+
+/-- **coroutines.**  A decorated coroutine function — eager or not — gives, once awaited, exactly what the
+synchronous call of the same declaration gives (binding, converted result, errors), so every binding / result theorem
+carries over; the lazy wrapper raises nothing before the await, the eager one raises at call time exactly the
+ParseErrors of the parameters (`get_params`), never the raw call's TypeError or the result's ParseError. -/
+theorem C08_coroutine_result (W : World N V T) (c : Ctx) (full : Sig N V T) (o : Opts) (ret : Option T)
+    (body : Binding N V → V) (args : List V) (kw : List (N × V)) (eager : Bool) :
+    (coroCall eager W c full o ret body args kw).result = callR W c full o ret body args kw ∧
+    (coroCall false W c full o ret body args kw ≠ .raisedAtCall) ∧
+    (coroCall true W c full o ret body args kw = .raisedAtCall ↔ (getParams W c full o args kw).isOk = false) := by
+  unfold coroCall callR callDecl
+  cases hg : getParams W c full o args kw with
+  | error e =>
+    refine ⟨?_, ?_, ?_⟩
+    · cases eager <;> simp [CoroRet.result, finish]
+    · simp
+    · simp [Except.isOk, Except.toBool]
+  | ok ak =>
+    refine ⟨?_, ?_, ?_⟩
+    · simp [CoroRet.result]
+    · simp
+    · simp [Except.isOk, Except.toBool]
 
 /-! ### every way a `Param` can be attached -/
 
@@ -817,6 +1007,10 @@ def effAdditionUserLast (s : Sig N V T) (o : Opts) : Addition T :=
     | some (_, t) => .allow t
     | none => .drop
 
+/-- non-vacuity of `C08_method_binding` / `C08_method_result`: `def m(cls, a: T = 3)` as a classmethod object, called
+`m(77, a=2)`; and `self` by keyword on a method of a class decorated as a whole -/
+def sM : Sig Nat Nat Nat := { pos := [{ name := 900 }, { name := 3, ann := some 0, dflt := some 3 }] }
+
 /-! ### witnesses: the full statement is false of the code, the hypotheses are satisfiable -/
 
 /-- a concrete world: names, values and types are numbers; names ≥ 1000 are private; `lower` folds 500-999 onto
@@ -826,6 +1020,7 @@ def W₁ : World Nat Nat Nat where
   priv := fun n => decide (1000 ≤ n)
   lower := fun n => if 500 ≤ n ∧ n < 1000 then n - 500 else n
   noneV := 0
+  isInst := fun v => decide (70 ≤ v)
 
 theorem W₁_lowerIdem : LowerIdem W₁ := by
   intro n
@@ -908,7 +1103,7 @@ resumed once more with None — the caller sees `[0, 200, stop]` where the undec
 `[0, 101, 202, 303]`; the repaired wrapper (`wrapTrace`) agrees with the specification. -/
 theorem C08_legacy_asend_witness :
     legacyAsyncTrace W₂ {} demoStep 0 [some 1, some 2, some 3] = [.yielded 0, .yielded 200, .returned none] ∧
-    Spec.genTrace W₂ {} demoStep 0 none [some 1, some 2, some 3]
+    Spec.pointwise W₂ {} demoStep 0 none [some 1, some 2, some 3]
       = [.yielded 0, .yielded 101, .yielded 202, .yielded 303] ∧
     wrapTrace W₂ {} demoStep 0 none [some 1, some 2, some 3]
       = [.yielded 0, .yielded 101, .yielded 202, .yielded 303] := by decide
@@ -917,7 +1112,7 @@ theorem C08_truthy_forward_witness :
     lazyTrace W₂ {} demoStep' truthyIsNone 0 none [some 0, some 5, none] = [.yielded 0, .returned none] ∧
     lazyTrace W₂ {} demoStep' pyIsNone 0 none [some 0, some 5, none]
       = [.yielded 0, .yielded 100, .yielded 205, .returned none] ∧
-    Spec.genTrace W₂ {} demoStep' 0 none [some 0, some 5, none]
+    Spec.pointwise W₂ {} demoStep' 0 none [some 0, some 5, none]
       = [.yielded 0, .yielded 100, .yielded 205, .returned none] := by decide
 
 /-- a generator that yields 0, then — whatever it is resumed with — hands over to one that yields 50 and echoes -/
@@ -936,7 +1131,7 @@ both agree. -/
 theorem C08_delegation_sent_witness :
     wrapTrace W₂ {} (hop false demoRaw 5) 0 none [some 3, some 4] = [.yielded 0, .escaped] ∧
     wrapTrace W₂ {} (hop true demoRaw 5) 0 none [some 3, some 4] = [.yielded 0, .yielded 50, .yielded 64] ∧
-    Spec.genTrace W₂ {} (Spec.flat demoRaw 5) 0 none [some 3, some 4] = [.yielded 0, .yielded 50, .yielded 64] ∧
+    Spec.pointwise W₂ {} (Spec.flat demoRaw 5) 0 none [some 3, some 4] = [.yielded 0, .yielded 50, .yielded 64] ∧
     wrapTrace W₂ {} (hop false demoRaw 5) 0 none [none, some 4] = [.yielded 0, .yielded 50, .yielded 64] := by
   decide
 
@@ -952,5 +1147,33 @@ theorem C08_options_witness :
     (match effAdditionUserLast sDemo { addition := some true } with | .allow none => true | _ => false) = true ∧
     (match effAddition sDemo { noDataLoss := true } with | .allow (some 0) => true | _ => false) = true := by
   decide
+
+/-! ### non-vacuity of the class-context theorems -/
+
+def sMtail : Sig Nat Nat Nat := { sM with pos := [{ name := 3, ann := some 0, dflt := some 3 }] }
+
+theorem sMtail_wf : WF W₁ sMtail := ⟨by decide, by decide, by decide, by decide, by decide, by decide⟩
+
+/-- `C08_method_binding` applied: `m(77, a=2)` on a classmethod object -/
+example : callDecl W₁ { isClassm := true } sM {} [77] [(3, 2)] = consFirst 77 (.body ⟨[102], [], [], []⟩) :=
+  C08_method_binding W₁ W₁_lowerIdem { isClassm := true } sM { name := 900 } _ {} 77 [] [(3, 2)] _
+    (by decide) rfl (by decide) sMtail_wf (by decide) (by decide) (by decide) (by decide) (by decide)
+
+/-- `C08_method_binding_self_kw` applied: a method of a class decorated as a whole, `self` passed by keyword -/
+example : callDecl W₁ { fromClass := true } sM {} [] [(900, 77), (3, 2)]
+    = consFirst 77 (.body ⟨[102], [], [], []⟩) :=
+  C08_method_binding_self_kw W₁ W₁_lowerIdem { fromClass := true } sM { name := 900 } _ {} 77 [(900, 77), (3, 2)] _
+    (by decide) rfl (by decide) (by decide) sMtail_wf (by decide) (by decide) (by decide) (by decide)
+
+/-- … and a first argument that is not an instance (5) is refused before the body; the result of a method call and of
+the coroutine variants, computed -/
+example :
+    callDecl W₁ { fromClass := true } sM {} [5] [(3, 2)] = .perr ∧
+    callR W₁ { isClassm := true } sM {} (some 0) (fun b => b.pos.length) [77] [(3, 2)]
+      = .returned ⟨[77, 102], [], [], []⟩ 102 ∧
+    coroCall true W₁ { isClassm := true } sM {} (some 0) (fun _ => 60) [77] [(3, 2)]
+      = .awaited (.resultErr ⟨[77, 102], [], [], []⟩) ∧
+    coroCall true W₁ { isClassm := true } sM {} (some 0) (fun _ => 1) [77] [(3, 70)] = .raisedAtCall ∧
+    coroCall false W₁ { isClassm := true } sM {} (some 0) (fun _ => 1) [77] [(3, 70)] = .awaited .perr := by decide
 
 end Utv.C08
